@@ -4,7 +4,7 @@
 //! sees operands of exactly the palette type, the folder sees no value.
 use crate::core::{self, guard, par_fold, Stop};
 use crate::palette::{self, Values, RECIPES};
-use crate::report::Violation;
+use crate::report::{VSet, Violation};
 use crate::ty::{belongs, cells_well_typed, Ty};
 use crate::val::canon_typed;
 use serde_json::{json, Value};
@@ -335,14 +335,55 @@ fn judge(v: &Variable, s: &Type) -> Option<&'static str> {
     None
 }
 
-/// Signature of a soundness violation. The answer of an *exhausted iterator* —
-/// a tuple (false, d) judged against (bool, T) with d not in T — is keyed by the
-/// default d and the declared type only: the defect sits in the iterator, not in
-/// the construct that happened to pull it.
+/// Per-case attribution state (see `c01_sig`).
+const TYPED_EMPTY_ITER: u8 = 1;
+const ROOT_SEEN: u8 = 2;
+thread_local! {
+    static TAINT: std::cell::Cell<u8> = const { std::cell::Cell::new(0) };
+}
+
+/// Starts a new case: nothing has gone wrong yet.
+pub fn begin_case() {
+    TAINT.with(|t| t.set(0));
+}
+
+fn has_default(t: &Type) -> bool {
+    Variable::of_type(t).is_some()
+}
+
+/// `a~` where the checker knows an element type with a default value but the iterator
+/// produced has none: its answer after exhaustion cannot be in the static type. That is
+/// not the recorded finding (which needs a static element type without values).
+fn note_iter_node(static_type: &Type, v: &Variable) {
+    let elem = |t: &Type| t.return_type().and_then(|r| r.tuple_element_at(1));
+    if let (Some(ts), Some(tr)) = (elem(static_type), elem(&v.as_type())) {
+        if has_default(&ts) && !has_default(&tr) {
+            TAINT.with(|t| t.set(t.get() | TYPED_EMPTY_ITER));
+        }
+    }
+}
+
+/// Signature of a soundness violation. The answer of an *exhausted iterator* -
+/// the tuple (false, ()) judged against (bool, T) with () not in T - is keyed by the
+/// default and the declared type only: the defect sits in the iterator, not in
+/// the construct that happened to pull it. Once that answer exists in a case, what the
+/// rest of the same case computes from it (a cell or array holding it, its second
+/// component, ...) is attributed to it as well ("downstream"): the premise of every later
+/// judgement - operands inhabit their static types - is already gone. Every construct is
+/// also run with operands that are not such answers, so nothing is only ever seen downstream.
+/// Must be called in event order.
 pub fn c01_sig(reason: &str, origin: &str, node: &str, static_type: &str, value: &str) -> String {
     let st = static_type.replace('|', "/");
+    let taint = TAINT.with(|t| t.get());
     if reason != "value-from-never-typed" && value == "(false, ())" && static_type.starts_with("(bool, ") {
+        if taint & TYPED_EMPTY_ITER != 0 {
+            return format!("C01|iterator-default-ignores-static-type|{origin}|node={node}|static={st}");
+        }
+        TAINT.with(|t| t.set(taint | ROOT_SEEN));
         return format!("C01|exhausted-iterator-default|value={}|declared={st}", value.replace('|', "/"));
+    }
+    if taint & ROOT_SEEN != 0 && taint & TYPED_EMPTY_ITER == 0 {
+        return format!("C01|exhausted-iterator-default|downstream|{reason}");
     }
     format!("C01|{reason}|{origin}|node={node}|static={st}")
 }
@@ -364,6 +405,9 @@ pub fn install_monitor() {
                 return;
             };
             if let NodeResult::Value(v) = result {
+                if kind == "UnaryOperation(Iter)" {
+                    note_iter_node(&s, v);
+                }
                 if let Some(reason) = judge(v, &s) {
                     MON.with(|m| {
                         m.borrow_mut().push(MonViolation {
@@ -419,8 +463,8 @@ pub struct RunStats {
     pub nodes_judged: u64,
     pub closure_calls: u64,
     pub outcome_kinds: BTreeMap<String, u64>,
-    pub c01: Vec<Violation>,
-    pub c02: Vec<Violation>,
+    pub c01: VSet,
+    pub c02: VSet,
     pub samples: Vec<Value>,
 }
 
@@ -439,8 +483,8 @@ impl RunStats {
         for (k, v) in o.outcome_kinds {
             *self.outcome_kinds.entry(k).or_insert(0) += v;
         }
-        self.c01.extend(o.c01);
-        self.c02.extend(o.c02);
+        self.c01.merge(o.c01);
+        self.c02.merge(o.c02);
         for s in o.samples {
             if self.samples.len() < 10 {
                 self.samples.push(s);
@@ -473,10 +517,7 @@ impl Ctx {
     fn record_mon(&mut self, origin: &str, case: &Value) {
         self.st.nodes_judged += take_node_count();
         for mv in take_monitor_violations() {
-            self.st.c01.push(Violation {
-                sig: c01_sig(mv.reason, origin, &mv.node, &mv.static_type, &mv.value),
-                detail: json!({"case": case, "node": mv.node, "static_type": mv.static_type, "value": mv.value, "reason": mv.reason}),
-            });
+            self.st.c01.push(c01_sig(mv.reason, origin, &mv.node, &mv.static_type, &mv.value), || json!({"case": case, "node": mv.node, "static_type": mv.static_type, "value": mv.value, "reason": mv.reason}));
         }
     }
 
@@ -503,10 +544,7 @@ impl Ctx {
             }
             Err(Stop::Panic(p)) => {
                 self.st.panics += 1;
-                self.st.c02.push(Violation {
-                    sig: format!("C02|panic|create_call|{origin}|{}|{}", p.file(), p.short_msg()),
-                    detail: json!({"case": case, "panic": p.msg, "at": p.loc}),
-                });
+                self.st.c02.push(format!("C02|panic|create_call|{origin}|{}|{}", p.file(), p.short_msg()), || json!({"case": case, "panic": p.msg, "at": p.loc}));
                 return None;
             }
         };
@@ -519,10 +557,7 @@ impl Ctx {
         // cells handed in by the host must still hold values of their declared types
         for (i, a) in kept_args.iter().enumerate() {
             if !cells_well_typed(a) {
-                self.st.c01.push(Violation {
-                    sig: format!("C01|cell-content-not-in-declared-type|{origin}|argument#{i}"),
-                    detail: json!({"case": case, "argument_after_call": canon_typed(a)}),
-                });
+                self.st.c01.push(c01_sig("cell-content-not-in-declared-type", origin, &format!("argument#{i}"), "", ""), || json!({"case": case, "argument_after_call": canon_typed(a)}));
             }
         }
         match r {
@@ -530,10 +565,7 @@ impl Ctx {
                 self.st.values += 1;
                 *self.st.outcome_kinds.entry("value".into()).or_insert(0) += 1;
                 if !cells_well_typed(&v) {
-                    self.st.c01.push(Violation {
-                        sig: format!("C01|cell-content-not-in-declared-type|{origin}|result"),
-                        detail: json!({"case": case, "value": canon_typed(&v)}),
-                    });
+                    self.st.c01.push(c01_sig("cell-content-not-in-declared-type", origin, "result", "", ""), || json!({"case": case, "value": canon_typed(&v)}));
                 }
                 Some(v)
             }
@@ -550,10 +582,7 @@ impl Ctx {
             Err(Stop::Panic(p)) => {
                 self.st.panics += 1;
                 *self.st.outcome_kinds.entry(format!("panic:{}", p.file())).or_insert(0) += 1;
-                self.st.c02.push(Violation {
-                    sig: format!("C02|panic|exec|{origin}|{}|{}", p.file(), p.short_msg()),
-                    detail: json!({"case": case, "panic": p.msg, "at": p.loc}),
-                });
+                self.st.c02.push(format!("C02|panic|exec|{origin}|{}|{}", p.file(), p.short_msg()), || json!({"case": case, "panic": p.msg, "at": p.loc}));
                 None
             }
         }
@@ -661,10 +690,7 @@ impl Ctx {
             Ok(Ok(_)) | Ok(Err(_)) | Err(Stop::Exhausted) => None,
             Err(Stop::Panic(p)) => {
                 self.st.panics += 1;
-                self.st.c02.push(Violation {
-                    sig: format!("C02|panic|define|{origin}|{}|{}", p.file(), p.short_msg()),
-                    detail: json!({"kind": "program", "stdlib": true, "text": text, "panic": p.msg, "at": p.loc}),
-                });
+                self.st.c02.push(format!("C02|panic|define|{origin}|{}|{}", p.file(), p.short_msg()), || json!({"kind": "program", "stdlib": true, "text": text, "panic": p.msg, "at": p.loc}));
                 None
             }
         }
@@ -706,6 +732,7 @@ impl Ctx {
             if !ok {
                 continue;
             }
+            begin_case();
             let case = json!({"kind": "host_call", "program": text, "args": lits});
             if self.st.samples.len() < 4 && k == 0 && self.st.accepted % 50 == 1 {
                 self.st.samples.push(case.clone());
@@ -716,6 +743,7 @@ impl Ctx {
             // literal twin (folded path)
             let ltext = program_literal(c, &lits);
             let lorigin = format!("{origin}|literal");
+            begin_case();
             if let Some(lf) = self.define(&ltext, &lorigin) {
                 let lcase = json!({"kind": "host_call", "program": ltext, "args": []});
                 if let Some(r) = self.host_call(&lf, vec![], &lorigin, &lcase) {
@@ -733,6 +761,7 @@ impl Ctx {
 
     /// `Code::return_type()` must be a supertype of what `Code::exec()` yields.
     pub fn top_level(&mut self, text: &str, origin: &str) {
+        begin_case();
         self.st.programs += 1;
         verif::set_fuel(Some(self.fuel), Some(core::DEPTH));
         let code = match guard(|| Code::parse(&self.interp, text)) {
@@ -755,10 +784,7 @@ impl Ctx {
             Ok(Ok(v)) => {
                 self.st.values += 1;
                 if let Some(reason) = judge(&v, &sty) {
-                    self.st.c01.push(Violation {
-                        sig: c01_sig(reason, origin, "program", &Ty::from_impl(&sty).print(), &canon_typed(&v)),
-                        detail: json!({"case": case, "static_type": Ty::from_impl(&sty).print(), "value": canon_typed(&v)}),
-                    });
+                    self.st.c01.push(c01_sig(reason, origin, "program", &Ty::from_impl(&sty).print(), &canon_typed(&v)), || json!({"case": case, "static_type": Ty::from_impl(&sty).print(), "value": canon_typed(&v)}));
                 }
                 self.call_closure(&v, 1, origin, &case);
             }
@@ -766,10 +792,7 @@ impl Ctx {
             Err(Stop::Exhausted) => self.st.exhausted += 1,
             Err(Stop::Panic(p)) => {
                 self.st.panics += 1;
-                self.st.c02.push(Violation {
-                    sig: format!("C02|panic|exec|{origin}|{}|{}", p.file(), p.short_msg()),
-                    detail: json!({"case": case, "panic": p.msg, "at": p.loc}),
-                });
+                self.st.c02.push(format!("C02|panic|exec|{origin}|{}|{}", p.file(), p.short_msg()), || json!({"case": case, "panic": p.msg, "at": p.loc}));
             }
         }
     }
@@ -820,10 +843,7 @@ pub fn run_grid(thorough: bool) -> RunStats {
         if !reported {
             for (i, p) in ctx.values.failures.drain(..) {
                 reported = true;
-                total.c02.push(Violation {
-                    sig: format!("C02|panic|exec|value-recipe|{}|{}", p.file(), p.short_msg()),
-                    detail: json!({"kind": "program", "stdlib": true, "text": RECIPES[i].src, "panic": p.msg, "at": p.loc}),
-                });
+                total.c02.push(format!("C02|panic|exec|value-recipe|{}|{}", p.file(), p.short_msg()), || json!({"kind": "program", "stdlib": true, "text": RECIPES[i].src, "panic": p.msg, "at": p.loc}));
             }
         }
         total.merge(ctx.st);
